@@ -1,4 +1,6 @@
 """C20 — a checkpoint exists whenever a trial is resumed or warm-started from it (assembled: loop, hb, sync)."""
+import random
+
 from streams import hb, sync, loop
 from props import c05
 from props.c03 import gen_ctor
@@ -31,16 +33,34 @@ TRUSTED = [
     "(Model/HB.lean) and synchronous Hyperband model (Model/Sync*.lean), each tied to /repo by its correspondence stream",
     "the backend's checkpoint set: copy requires the source present, delete idempotent, stop deletes iff delete_checkpoints, "
     "pause never deletes (scripted in-memory backend recording copy / delete / resume)",
+    "(early) no model: the speculative removal callback's picks depend on estimated probabilities and a clock; the cases of kind "
+    "'early' are judged by the monitor alone, on the recorded dialogue of the real Tuner and the scripted backend's own record "
+    "of every deletion (status of the trial and presence of the checkpoint at that moment); the callback's clock "
+    "(time.perf_counter in its module) is replaced by a deterministic counter so that runs are reproducible",
 ]
 ASSUMPTIONS = [
-    "speculative early checkpoint removal (HyperbandRemoveCheckpointsCallback) is off unless explicitly requested, as in the property",
+    "speculative early checkpoint removal (HyperbandRemoveCheckpointsCallback and its baseline variants) is exercised in both "
+    "settings. OFF (cases loop / hb / sync; the scheduler has no early_checkpoint_removal_kwargs): proved on the models, and on the "
+    "traces every deletion must follow a STOP, a trial named removable, or the end of tuning, and every resume must find its "
+    "checkpoint. ON (cases early; explicitly requested via early_checkpoint_removal_kwargs, delete_checkpoints=True): monitor only; "
+    "a deletion is legitimate after STOP, at the end of tuning, or - the requested speculation - for a trial that is not running "
+    "(paused at a rung level, or already failed / completed / stopped); a deletion while the trial runs is a violation; a resume "
+    "after a speculative removal is the documented price of the speculation and only counted; the promise on the number of kept "
+    "checkpoints is: after on_loop_end, (#running trials + #paused trials whose checkpoint is kept) <= max_num_checkpoints, or "
+    "no paused trial keeps a checkpoint (checkpoints of completed / failed trials are outside the callback's count)",
     "DEHB and PBT have no scheduler model: their resume / warm-start behaviour is decided on the real Tuner traces only",
 ]
 RULE = ("cases: (loop) real Tuner runs with pause-and-resume schedulers (promotion Hyperband, PASHA, synchronous Hyperband, DEHB, "
         "PBT) on the scripted backend with delete_checkpoints on/off and the removal callback, every order of results inside a "
         "poll; (hb) the real promotion-type HyperbandScheduler: a trial that received STOP is never resumed; (sync) the real "
-        "synchronous scheduler: a trial reported by trials_checkpoints_can_be_removed is never resumed. distinct by sha256 of "
-        "the spec; non-trivial iff at least one resume or warm start happened")
+        "synchronous scheduler: a trial reported by trials_checkpoints_can_be_removed is never resumed; (early) real Tuner runs "
+        "with promotion-type HyperbandScheduler (promotion, pasha, cost_promotion, rush_promotion) constructed with "
+        "early_checkpoint_removal_kwargs (max_num_checkpoints 2..6, estimator-based callback with varied prior_beta_mean / "
+        "prior_beta_size / min_data_at_rung / approx_steps and the baselines 'random' / 'by_level' / None, max_wallclock_time from "
+        "the kwargs or the criterion) on the scripted backend with delete_checkpoints=True, 1..5 workers, 1..3 brackets, results of "
+        "several trials inside a poll in a random interleaving, failures and external stops; monitor only (no model lines). "
+        "distinct by sha256 of the spec; non-trivial iff at least one resume or warm start happened (early: at least one "
+        "speculative removal and at least one promotion after it)")
 
 
 def gen_cases(rng, tier):
@@ -102,6 +122,8 @@ def gen_cases(rng, tier):
         spec["p_fail"] = rng.choice([0, 0, 0.1])
         spec["kind"] = "sync"
         yield spec
+    for _ in range(20 if tier == "quick" else 300):
+        yield gen_early_spec(rng, tier)
 
 
 def corpus():
@@ -122,6 +144,8 @@ def run_impl(spec):
             return {"lines": lines, "driver": LOOP, "monitor": mon, "meta": {"hist": hist, "nontrivial": nt}}
         finally:
             loop.cleanup(t)
+    if kind == "early":
+        return run_early(spec)
     if kind == "hb":
         t = hb.run_scenario(spec)
         t.pop("sched")
@@ -150,3 +174,290 @@ def run_impl(spec):
 
 def nontrivial(trace):
     return bool(trace.get("meta", {}).get("nontrivial"))
+
+
+# ---------------------------------------------------------------------------------
+# case kind "early": speculative early checkpoint removal switched ON (monitor only)
+#
+# HyperbandScheduler(type=<promotion type>, early_checkpoint_removal_kwargs={...}).callback_for_checkpoint_removal() hands the
+# Tuner a HyperbandRemoveCheckpointsCallback (or its baseline variant) when trial_backend.delete_checkpoints is set.  The
+# callback estimates probabilities of getting resumed and reads a clock, so there is no model of its picks: the real
+# Tuner.run() is executed on the scripted backend of streams/loop.py and the recorded dialogue is judged directly.
+
+EARLY_CB_MODULE = "syne_tune.callbacks.hyperband_remove_checkpoints_callback"
+EARLY_CB_CLASSES = ("HyperbandRemoveCheckpointsCallback", "HyperbandRemoveCheckpointsBaselineCallback")
+
+
+class _CounterClock:
+    """deterministic stand-in for module `time` inside the removal callback's module (it reads time.perf_counter() to
+    relate the time spent to max_wallclock_time): every reading advances by `step`"""
+
+    def __init__(self, step):
+        self.now, self.step = 0.0, step
+
+    def perf_counter(self):
+        self.now += self.step
+        return self.now
+
+    def __getattr__(self, name):
+        import time as _time
+        return getattr(_time, name)
+
+
+def gen_early_spec(rng, tier):
+    typ = rng.choice(["promotion"] * 4 + ["pasha", "pasha", "cost_promotion", "rush_promotion"])
+    rf = rng.choice([2, 2, 3])
+    max_t = rng.choice([4, 8, 9, 9, 16] if rf == 2 else [4, 9, 9, 10, 27])   # 2..4 rung levels below max_t
+    approach = rng.choice(["estimator", "estimator", "estimator", "random", "by_level", "none"])
+    early = {"max_num_checkpoints": rng.randint(2, 6)}
+    if approach == "estimator":
+        if rng.random() < 0.8:
+            early["prior_beta_mean"] = rng.choice([0.1, 0.33, 0.45, 0.6])
+        if rng.random() < 0.8:
+            early["prior_beta_size"] = rng.choice([0.5, 1, 2, 8])
+        if rng.random() < 0.8:
+            early["min_data_at_rung"] = rng.choice([0, 1, 3, 5])
+        if rng.random() < 0.7:
+            early["approx_steps"] = rng.choice([3, 5, 10, 25])
+    else:
+        early["baseline"] = None if approach == "none" else approach
+    n_workers = rng.randint(1, 5)
+    calm = approach == "estimator" and rng.random() < 0.7
+    if calm:
+        # the estimator-based callback raises in on_loop_end (zip of an empty list) as soon as more trials count as holding a
+        # checkpoint than max_num_checkpoints while no paused trial is left to choose from; its count never forgets a failed
+        # trial.  Most estimator cases stay clear of that: at least as many checkpoints as workers, no failing trials
+        early["max_num_checkpoints"] = max(early["max_num_checkpoints"], min(6, n_workers + rng.choice([0, 0, 1])))
+    crit = {"max_num_trials_started": rng.randint(8, 22 if tier == "quick" else 40)}
+    if rng.random() < 0.5:
+        # the callback takes max_wallclock_time from the criterion (overriding the kwargs); mostly generous (the loop's clock
+        # is the scripted ClockStub), sometimes it is what ends the run
+        crit["max_wallclock_time"] = loop.frac_str(rng.choice([10, 40, 400, 400, 4000]))
+        if rng.random() < 0.3:
+            early["max_wallclock_time"] = rng.choice([5, 50])
+    else:
+        early["max_wallclock_time"] = rng.choice([5, 20, 100, 3600])
+    if rng.random() < 0.3:
+        crit["max_num_evaluations"] = rng.randint(30, 120)
+    swd = rng.random() < 0.75
+    spec = {
+        "kind": "early",
+        "seed": rng.randrange(10 ** 9),
+        "backend": "script",
+        "scheduler": {"kind": "hb", "type": typ, "mode": rng.choice(["min", "max"]), "reduction_factor": rf,
+                      "grace_period": rng.choice([1, 1, 1, 2]), "brackets": rng.choice([1, 1, 1, 2, 3]) if typ != "pasha" else 1,
+                      "max_resource_attr": typ != "pasha" and rng.random() < 0.4, "early": early},
+        "n_workers": n_workers,
+        "max_t": max_t,
+        "flags": {"async": rng.random() < 0.9, "wait": rng.random() < 0.3, "swd": swd},
+        "criterion": crit,
+        "max_failures": rng.choice([2, 5, 100, 100]),
+        "delete_checkpoints": True,
+        "cb_store": rng.random() < 0.5,
+        "store_every": False,
+        "inject": rng.randrange(40, 400) if rng.random() < 0.08 else None,
+        "clock_step": rng.choice([0.25, 0.5, 1.0]),
+        "cb_clock_step": rng.choice([0.001, 0.05, 0.5, 2.0]),
+        "backend_params": {
+            "p_fail": 0.0 if calm else rng.choice([0.0, 0.0, 0.1, 0.2]),
+            "p_extstop": 0.0 if calm else rng.choice([0.0, 0.0, 0.0, 0.08]),
+            "max_batch": rng.randint(1, 3),
+            "p_end_same_poll": rng.choice([0.0, 0.5, 1.0]),
+            "stop_delay": 0 if swd else rng.choice([0, 0, 1]),
+            "p_finish_at_busy": 0.0 if swd else rng.choice([0.0, 0.0, 0.3]),
+            "style": "cost" if typ == "cost_promotion" else rng.choice(["plain", "plain", "cost"]),
+            "nan_metric": False,
+            "short_runs": None,
+            "shuffle_poll": rng.random() < 0.85,
+        },
+    }
+    if spec["scheduler"]["grace_period"] >= max_t:
+        spec["scheduler"]["grace_period"] = 1
+    return spec
+
+
+def run_early(spec):
+    import importlib
+    mod = importlib.import_module(EARLY_CB_MODULE)
+    old_time = mod.time
+    mod.time = _CounterClock(spec.get("cb_clock_step", 0.05))
+    try:
+        t = loop.run_loop(spec)
+    finally:
+        mod.time = old_time
+    try:
+        mon, hist, nt = monitor_c20_early(t)
+        h = loop.histogram(t)
+        h = {k: v for k, v in h.items() if not k.startswith("call:") or k in ("call:be.delete", "call:be.resume", "call:be.pause",
+                                                                               "call:be.stop", "call:sched.error")}
+        h.update(hist)
+        h["kind:early"] = 1
+        return {"lines": [], "driver": LOOP, "monitor": mon, "meta": {"hist": h, "nontrivial": nt}}
+    finally:
+        loop.cleanup(t)
+
+
+def monitor_c20_early(t):
+    """direct reading of C20 with speculative early removal ON, on the recorded dialogue of the real Tuner and the scripted
+    backend's own record.  Returns (findings, histogram, non-trivial)
+
+    The loop's view of a trial (from the dialogue only): RUNNING from the return of `be start` / `be resume` until `be pause`,
+    `be stop`, or a poll (`be fetch`) that reports it completed / failed / stopped; PAUSED after `be pause`.
+    A deletion (`be delete`) is
+      * a STOP deletion if the preceding backend call is `be stop` of the same trial (stop_trial with delete_checkpoints),
+      * a final deletion if `stop_all` is under way (tuning has ended),
+      * otherwise speculative (issued by a callback)."""
+    from syne_tune.backend.trial_status import Status
+    hist = {}
+
+    def bump(k, n=1):
+        hist[k] = hist.get(k, 0) + n
+
+    sp = t["spec"]["scheduler"]
+    early = sp.get("early") or {}
+    max_ckpt = early.get("max_num_checkpoints")
+    approach = ("baseline:" + str(early["baseline"])) if "baseline" in early else "estimator"
+    bump("early:approach=" + approach)
+    bump("early:max_num_checkpoints=%s" % max_ckpt)
+    cb_names = [type(c).__name__ for c in t["tuner"].callbacks]
+    installed = [c for c in cb_names if c in EARLY_CB_CLASSES]
+    bump("early:callback=" + (installed[0] if installed else "none"))
+    if t.get("skipped"):
+        return [], hist, False
+    out = []
+    if not installed:
+        out.append(loop.F("c20:early-removal-callback-missing", "early_checkpoint_removal_kwargs given and delete_checkpoints=True, but the "
+                          "Tuner did not install the removal callback", {"callbacks": cb_names}))
+    DEAD = (Status.completed, Status.failed, Status.stopped)
+    calls = loop._calls(t)
+    be = t["backend"]
+    truth_at = {pos: (tid, st, had) for pos, tid, st, had in getattr(be, "delete_log", [])}
+    state, ended = {}, {}        # tid -> "running" | "paused" | "stopped" | <polled end status>;  tid -> polled end status of the current run
+    spec_deleted, hard_deleted = set(), set()   # checkpoint removed (speculatively | by STOP) and the trial has not run since
+    removable = set()
+    in_final = False
+    prev = None
+    after_loop_end = False       # the recorder's `cb loop_end` returned and only deletions / clock readings followed
+    iteration = 0
+    paused_in_iter = {}
+    n_spec = n_resume_after_any_spec = 0
+    expected_missing = []
+    raised = t["final"].get("raised")
+
+    def check_promise(i, where):
+        run = sorted(k for k, v in state.items() if v == "running")
+        kept = sorted(k for k, v in state.items() if v == "paused" and k not in ended and k not in spec_deleted and k not in hard_deleted)
+        bump("early:promise-checked")
+        if len(run) + len(kept) > max_ckpt:
+            if kept:
+                out.append(loop.F("c20:early-removal-too-many-checkpoints",
+                                  f"after on_loop_end ({where}) {len(run)} running + {len(kept)} paused trials keep a checkpoint, more than "
+                                  f"max_num_checkpoints={max_ckpt}, although paused trials with a checkpoint are left to choose from",
+                                  {"call": i, "running": run, "paused_with_checkpoint": kept}))
+            else:
+                bump("early:promise-by-exhaustion")   # more running trials than max_num_checkpoints, no paused checkpoint left
+        elif kept:
+            bump("early:paused-checkpoints-kept-at-loop-end", len(kept))
+
+    for i, c, a in calls:
+        ok = a == {"ret": True}
+        if c == ["be", "all_results"]:
+            in_final = True
+        if c[:2] == ["sched", "removable"] and isinstance(a, dict) and "ids" in a:
+            removable |= set(a["ids"])
+        if c[0] == "cb" and c[1] == "loop_start":
+            if after_loop_end and max_ckpt is not None:
+                check_promise(i, "next loop_start")
+            iteration += 1
+        if c[0] == "cb" and c[1] == "tuning_end" and after_loop_end and raised is None and max_ckpt is not None:
+            check_promise(i, "tuning_end")
+        if c[:2] == ["cb", "loop_end"]:
+            after_loop_end = ok
+        elif not (c[:2] == ["be", "delete"] and ok) and c != ["clock"]:
+            after_loop_end = False
+        if c[:2] == ["be", "fetch"] and isinstance(a, dict) and "status" in a:
+            for tid, st in a["status"]:
+                if st in DEAD:
+                    ended[tid] = st
+                    if state.get(tid) == "running":
+                        state[tid] = st
+                        bump("early:polled-end:" + st)
+        if c[:2] == ["be", "pause"]:
+            state[c[2]] = "paused"
+            paused_in_iter[c[2]] = iteration
+            if c[2] in ended:
+                bump("early:paused-and-" + ended[c[2]] + "-in-one-poll")
+        if c[:2] == ["be", "stop"]:
+            state[c[2]] = "stopped"
+        if c[:2] == ["be", "delete"]:
+            tid = c[2]
+            tr = truth_at.get(i)
+            if prev == ["be", "stop", tid]:
+                bump("early:delete-after-stop")
+                if ok:
+                    hard_deleted.add(tid)
+            elif in_final:
+                bump("early:delete-at-end-of-tuning")
+                if ok:
+                    hard_deleted.add(tid)
+            else:
+                st = state.get(tid)
+                n_spec += 1
+                cat = "never-started" if st is None else st if tid not in ended or st in ("running", "stopped") else st + "+" + ended[tid]
+                bump("early:speculative-delete:" + cat)
+                if after_loop_end:
+                    bump("early:speculative-delete-in-on_loop_end")
+                detail = {"call": i, "trial": tid, "loop_view": st, "backend_status": tr[1] if tr else None,
+                          "checkpoint_present": tr[2] if tr else None, "iteration": iteration,
+                          "paused_in_iteration": paused_in_iter.get(tid)}
+                if st == "running":
+                    out.append(loop.F("c20:early-removal-deletes-running-trial",
+                                      f"checkpoint of trial {tid} removed while the trial is running (started / resumed and neither paused, "
+                                      f"stopped, completed nor failed since; backend status {detail['backend_status']})", detail))
+                elif st is None and tid not in removable:
+                    out.append(loop.F("c20:early-removal-unexpected-delete",
+                                      f"checkpoint of trial {tid} deleted, which is neither paused, stopped by the scheduler, completed / "
+                                      f"failed, named removable, nor is tuning at its end (the trial was never started)", detail))
+                if ok:
+                    spec_deleted.add(tid)
+                    if tr is not None and tr[2]:
+                        bump("early:speculative-delete-removed-a-checkpoint")
+        if c[:2] in (["be", "start"], ["be", "resume"]) and ok:
+            tid = c[2]
+            if c[1] == "resume":
+                bump("early:resume")
+                if paused_in_iter.get(tid) == iteration:
+                    bump("early:promoted-in-the-iteration-it-paused")
+                if n_spec:
+                    n_resume_after_any_spec += 1
+                if tid in hard_deleted:
+                    out.append(loop.F("c20:resume-without-checkpoint", f"trial {tid} resumed after its checkpoint was deleted at STOP", {"call": i}))
+                    expected_missing.append(tid)
+                elif tid in spec_deleted:
+                    bump("early:resumed-after-speculative-removal")   # the documented price of the speculation: not a finding
+                    expected_missing.append(tid)
+            state[tid] = "running"
+            ended.pop(tid, None)
+            spec_deleted.discard(tid)   # a running trial writes a checkpoint again
+            hard_deleted.discard(tid)
+        if c[:2] == ["be", "copy"] and (c[2] in spec_deleted or c[2] in hard_deleted):
+            out.append(loop.F("c20:copy-from-deleted-checkpoint", f"new trial {c[3]} is warm-started from trial {c[2]} whose checkpoint was "
+                              f"deleted before (copy_checkpoint answered {a})", {"call": i}))
+        prev = c
+    # the backend's truth: every resume that found no checkpoint is explained by a deletion seen in the dialogue
+    missing = list(getattr(be, "resume_missing", []))
+    for tid in expected_missing:
+        if tid in missing:
+            missing.remove(tid)
+    for tid in missing:
+        out.append(loop.F("c20:resume-without-checkpoint", f"the backend resumed trial {tid} without a checkpoint, and no deletion recorded in "
+                          f"the dialogue since its pause explains it", {"trial": tid}))
+    raised_obj = t.get("raised_obj")
+    if raised_obj is not None and id(raised_obj) not in t["dlg"]._attributed:
+        import traceback
+        frames = traceback.extract_tb(raised_obj.__traceback__)
+        if any("hyperband_remove_checkpoints" in (f.filename or "") for f in frames):
+            bump("early:callback-raised:" + type(raised_obj).__name__)
+    bump("early:speculative-removals", n_spec)
+    bump("early:promotions-after-a-speculative-removal", n_resume_after_any_spec)
+    return out, hist, n_spec > 0 and n_resume_after_any_spec > 0
